@@ -19,6 +19,7 @@ RULE = (
     "(ties forced), chunk files combined in a drawn order, policy None or KPerSample(k); 1 in 4 cases through the calculate_scores / "
     "select_next_plate CLIs. Non-trivial = (n_chunks>=2 and non-empty batch) or ties at the minimum or n_chunks > candidates. distinct = distinct case JSON."
     ' Also: fixed cases in which every chunk index is computed by its own interpreter process with its own string-hash salt.'
+    ' Also: four-slot conditions on screens whose treatment table has 2**k - 2 .. 2**k entries (k = 8, 16; thorough 12); a third of the CLI cases name every score file scores.h5 in a directory of its own.'
 )
 ASSUMPTIONS = [
     "'distinct condition' is the ordered tuple (sample id, treatment ids) - what filter_dataset_to_unique_treatments documents; which duplicate survives is not asserted",
@@ -85,10 +86,32 @@ def exhaustive(tier):
                 rows.append({"s": "s%d" % (p_ % 2), "p": names(p_), "t": ["t%d" % ((p_ + r_) % 5), "t%d" % ((p_ + 2 * r_ + 1) % 5)], "d": [1.0, 2.0], "o": 0.5})
         return {"arity": 2, "control": "ctl", "rows": rows, "observed": [names(0)], "ns": 2, "nt": 10, "layout": None}
 
+    # conditions with four treatment slots on screens whose treatment table sits at 2**8 / 2**16 entries (one less, one more): the
+    # candidates repeat the batch's treatment combinations in other samples and in other slot orders
+    for nt in [254, 65534, 65535] + ([255, 256, 65536, 4094, 4095] if tier != "quick" else []):
+        yield {"wide": {"nt": nt, "arity": 4}, "n_chunks": 2, "batch_picks": [0], "batch_repeat": False, "scores": [1.0, 2.0, 0.5, 3.0, 1.5, 0.25], "order_seed": nt, "policy_k": 0, "cli": False}
     todo = [(7, 3, [], 0), (6, 2, [1], 1)] if tier == "quick" else [(7, 3, [], 0), (6, 2, [1], 1), (9, 4, [], 2), (12, 5, [0, 3], 0), (8, 8, [], 1), (5, 2, [], 2), (10, 3, [2], 0), (16, 7, [], 1)]
     for n_pl, n_chunks, picks, style in todo:
         names = [lambda i: "plate_%d" % i, lambda i: "P%02d-%s" % (i, "abcdefgh"[i % 8] * (1 + i % 3)), lambda i: str(1000 - 7 * i)][style]
         yield {"screen": sc_(n_pl, names), "n_chunks": n_chunks, "batch_picks": picks, "batch_repeat": False, "scores": [float((5 * i) % 7) for i in range(n_pl)], "order_seed": n_pl, "policy_k": 0, "cli": True, "xproc": True}
+
+
+def _wide_sc(g):
+    nt, ar = g["nt"], g["arity"]
+    w = len(str(nt))
+    tn = lambda t: "ctl" if t < 0 else "t%0*d" % (w, t)
+    top = nt - 1
+    rows = []
+    for r in range((nt + ar - 1) // ar):  # an observed plate on which every treatment occurs
+        ts = [min(top, r * ar + c) for c in range(ar)]
+        rows.append({"s": "s%d" % (r % 5), "p": "zz_observed", "t": [tn(t) for t in ts], "d": [1.0] * ar, "o": 0.5})
+    pats = [(top,) * ar, (0,) * ar, (top, 0) * (ar // 2), (0, top) * (ar // 2), (top,) + (-1,) * (ar - 1), (-1,) * (ar - 1) + (top,), (1, 2, 3, 4)[:ar], (top, top - 1, 1, 0)[:ar]]
+    for k, (plate, smp) in enumerate([("a_batch", 0), ("b_cand", 1), ("c_cand", 4), ("d_cand", 0), ("e_cand", 2)]):
+        for j, p_ in enumerate(pats if plate != "d_cand" else [p_[::-1] for p_ in pats]):
+            if plate == "e_cand" and j % 2:
+                continue
+            rows.append({"s": "s%d" % smp, "p": plate, "t": [tn(t) for t in p_], "d": [0.0 if t < 0 else 1.0 for t in p_], "o": 0.5})
+    return {"arity": ar, "control": "ctl", "rows": rows, "observed": ["zz_observed"], "ns": 5, "nt": nt, "layout": None}
 
 
 def _conditions(screen, sel):
@@ -103,7 +126,7 @@ def check_case(case):
     from batchie.policies.k_per_sample import KPerSamplePlatePolicy
     from batchie.scoring.main import ChunkedScoresHolder, score_chunk, select_next_plate
 
-    sc = case["screen"]
+    sc = case["screen"] if "wide" not in case else _wide_sc(case["wide"])
     screen = S.build_screen(sc)
     plates = {int(p.plate_id): p for p in screen.plates}
     unobs = sorted(pid for pid, p in plates.items() if not bool(np.all(p.observation_mask)))
@@ -224,7 +247,7 @@ def check_case(case):
             full.save(dfile)
             cfiles = []
             for c in range(n_chunks):
-                out = tmp.fresh("cli_scores_%d.h5" % c)
+                out = tmp.fresh("scores.h5" if case["order_seed"] % 3 == 1 else "cli_scores_%d.h5" % c, own_dir=case["order_seed"] % 3 == 1)  # (a third: equal base names)
                 paths.append(out)
                 argv = ["--data", sfile, "--thetas", tfile, "--distance-matrix", dfile, "--n-chunks", n_chunks, "--chunk-index", c, "--scorer", "SizeScorer", "--output", out, "--seed", 3]
                 if batch:
@@ -261,7 +284,7 @@ def check_case(case):
     finally:
         tmp.cleanup(*paths)
 
-    labels = ["policy" if case["policy_k"] else "no-policy", "cli" if case["cli"] else "api"] + (["one-process-per-chunk"] if case.get("xproc") else [])
+    labels = ["policy" if case["policy_k"] else "no-policy", "cli" if case["cli"] else "api"] + (["one-process-per-chunk"] if case.get("xproc") else []) + (["wide-conditions-at-table-boundary"] if "wide" in case else [])
     if not unobs:
         labels.append("all-observed")
     if n_chunks > len(candidates):
